@@ -2,6 +2,7 @@
 from engine import *
 import ordimpls
 import provenance
+import guards
 import tlv, tlvloop
 
 W = 'lightning::ln::wire::'
@@ -456,3 +457,4 @@ RULES = [
 	('13.o', 'hand-written eq / cmp / partial_cmp / hash impls in this property\'s files: same field on both sides, reviewed direction, no reviewed key lost, hash within eq (rules/ordimpls.py)', lambda F: ordimpls.for_property(F, 'C13', '13.o')),
 ]
 RULES.append(('13.P', 'panic sites: no reviewed function that parses / handles untrusted input gained an unwrap / expect / explicit panic / bounds-checked index / length-checked copy / division (rules/provenance.py; panic freedom itself is not decided)', lambda F: provenance.panics_for_property(F, 'C13', '13.P')))
+RULES.append(('13.G', 'guard census: no reviewed call of a workspace function and no reviewed mutation of a stored collection gained a controlling branch condition (an added `&& cond`, early return / continue, more specific match arm in front of an act); counts per call site, name free (rules/guards.py)', lambda F: guards.for_property(F, 'C13', '13.G')))
